@@ -129,6 +129,14 @@ def c13_units(sc, base, seed):
     rng = random.Random(seed)
     mf = sc["model"]["monetary_factor"]
     q = 10.0 ** -(int(np.log10(mf)) + 1)
+    # "to within a rounding quantum": when the economy itself is not large compared with the (absolute)
+    # decimal quantum of the ledgers, rounding is a first-order effect and the paired comparison says nothing
+    tbz = sc["table"]
+    steply = sc["model"]["dt"] / sc["model"]["year_factor"]
+    xs = [(sum(tbz["Z"][i]) + sum(tbz["Y"][i])) * steply for i in range(tbz["m"] * tbz["n"])]
+    xs = [v for v in xs if v > 0]
+    if not xs or min(xs) < 1e8 * q:
+        return out
     cap_ev = [e for e in sc["events"] if e["type"] != "arbitrary"]
     if cap_ev:
         tw = copy.deepcopy(sc)
